@@ -389,6 +389,12 @@ func (c *Ctx) checkBlockComponentBytes() {
 				nSet++
 				arg := cc.Args[len(cc.Args)-1]
 				ok2, bad := goodWireOrigins(origins(arg), dataParam)
+				if !ok2 {
+					// the bytes may come out of a private helper: look through it
+					if ok3, _ := goodWireOrigins(originsIP(arg), dataParam); ok3 {
+						ok2 = true
+					}
+				}
 				c.Check(ok2, "component-bytes-slice", ssaFuncKey(fn)+":"+desc(cc.Value), ci.Pos(), "component bytes handed to the setter are a slice of the block bytes", "component bytes handed to the setter derive from "+bad+", not from the block's own bytes")
 				// a slice [a:b] of the data: its bounds must not come from an assumed (count->size) header
 				if sl, ok := arg.(*ssa.Slice); ok {
